@@ -510,11 +510,11 @@ OpSetFlag(v) ==
     IF Bad(a) THEN a
     ELSE LET k == FlagKey(a.cfg.defaults, a.r[2]) IN
          IF k \notin DOMAIN a.cfg.defaults THEN Raise(a, SEE)
-         ELSE [a EXCEPT !.fheap[TT(a).fid] = Overlay(@, [x \in {k} |-> a.cfg.defaults[k]])]
+         ELSE [a EXCEPT !.fheap[TT(a).fid] = Overlay(@, [x \in {k} |-> a.cfg.defaults[k]]), !.obs.flagops = @ + 1]
 OpUnsetFlag(v) ==
     LET a == RdKey(v) IN
     IF Bad(a) THEN a
-    ELSE [a EXCEPT !.fheap[TT(a).fid] = Without(@, FlagKey(@, a.r[2]))]
+    ELSE [a EXCEPT !.fheap[TT(a).fid] = Without(@, FlagKey(@, a.r[2])), !.obs.flagops = @ + 1]
 
 OpSwap(v) == LET a == Rd(Rd(v, 1), 1) IN IF Bad(a) THEN a ELSE DoSwap(a, U8(a.r[1]), U8(a.r[2]))
 OpReverse(v) ==
@@ -921,7 +921,7 @@ InitVM(cfg) ==
      fheap |-> <<tbl>>, dheap |-> <<[x \in {} |-> 0]>>,
      status |-> "run", exc |-> "none", lastexc |-> "none", sidx |-> 1,
      r |-> <<>>, p |-> <<>>, x |-> <<>>,
-     obs |-> [plug |-> 0, last |-> <<0, 0, 0>>, hist |-> <<>>, alloc |-> 0]]
+     obs |-> [plug |-> 0, last |-> <<0, 0, 0>>, hist |-> <<>>, alloc |-> 0, flagops |-> 0]]
 
 BaseCfg == [scripts |-> <<<<>>>>, auth |-> FALSE, maxItems |-> 1024, maxItemSize |-> 1024,
             callLimit |-> 128, sc |-> <<>>, bc0 |-> [x \in {} |-> 0], defaults |-> StdDefaults,
